@@ -136,7 +136,9 @@ func (c *Chunker) Next() (*proto.LoadChunkRequest, error) {
 		StreamId:    c.streamID,
 		SequenceNum: c.sequenceNum,
 		IsLast:      totalRead < c.chunkSize,
-		Data:        buf.Bytes(),
+		// The buffer goes back to the pool when this function returns, so the
+		// chunk must own a copy of the compressed data.
+		Data: bytes.Clone(buf.Bytes()),
 	}, nil
 }
 
